@@ -13,6 +13,7 @@ ap.add_argument("--skip-demo", action="store_true")
 ap.add_argument("--tier", default="quick")
 ap.add_argument("--from-seeded", action="store_true", help="re-run our checks against the patch kept under /verif/seeded (no worktree needed)")
 ap.add_argument("--prebuild", default=None, help="command run in the worktree after applying the patch (and again after reverting it), e.g. to rebuild pavexc")
+ap.add_argument("--no-checks", action="store_true", help="only (re)confirm the demonstration and the tests; keep the recorded results of our checks")
 ap.add_argument("--also", default="", help="other properties whose checks should be run against the mutant too (comma separated)")
 a = ap.parse_args()
 wt = "/tmp/mut-%s" % a.tag
@@ -54,7 +55,16 @@ finally:
         sh("git -C %s checkout -- ." % wt)
     if a.prebuild:
         sh(a.prebuild, cwd=wt)
+# build output of the demonstration is not kept (disk)
+if not a.from_seeded and os.path.isdir(demo_dir):
+    sh("find %s -type d -name target -prune -exec rm -rf {} +" % demo_dir)
 # --- our checks against the mutant, in /repo
+if a.no_checks:
+    prev = json.load(open(os.path.join(dst, "meta.json")))
+    prev["confirmed_by_lead"] = res["confirmed_by_lead"]
+    json.dump(prev, open(os.path.join(dst, "meta.json"), "w"), indent=1)
+    print(json.dumps(res, indent=1)[:3000])
+    sys.exit(0)
 rc, out = sh("git -C /repo apply --check %s" % patch)
 assert rc == 0, "patch does not apply to /repo: " + out
 assert sh("git -C /repo status --porcelain --untracked-files=no")[1].strip() == "", "/repo not clean"
